@@ -28,7 +28,7 @@ const MAX_UPDATES: usize = 100_000;
 
 /// Extension hook so that the driver can manipulate family specific runtime state
 /// (only used for `Option` presence in family 1).
-trait Fam: TreeKey + TreeSerialize + TreeDeserializeOwned + Default {
+trait Fam: TreeKey + TreeSerialize + TreeDeserializeOwned + Default + Clone {
     fn special(&mut self, _cmd: &str) -> bool {
         false
     }
@@ -806,6 +806,9 @@ struct Driver<'a, S: Fam> {
     time: Rc<Cell<u64>>,
     client: Client<'a, S>,
     settings: S,
+    /// for every injected Set request that `json::set_by_key` refuses on a copy of the settings as they are at injection:
+    /// `<topic>~<payload>~<Display of the error>` (what the Error response has to carry, computed outside the client)
+    xerr: Vec<String>,
 }
 
 impl<S: Fam> Driver<'_, S> {
@@ -854,6 +857,14 @@ impl<S: Fam> Driver<'_, S> {
             }
             let topic = dec_cp(f[0])?;
             let payload = dec_cp(f[1])?;
+            if let Some(path) = topic.strip_prefix(PREFIX).and_then(|t| t.strip_prefix("/settings")) {
+                if !payload.is_empty() {
+                    let mut copy = self.settings.clone();
+                    if let Err(e) = json::set_by_key(&mut copy, Path::<_, '/'>::from(path), payload.as_bytes()) {
+                        self.xerr.push(format!("{}~{}~{}", f[0], f[1], enc_cp(&format!("{e}"))));
+                    }
+                }
+            }
             let resp = if f[2] == "-" { None } else { Some(dec_cp(f[2])?) };
             let cd = if f[3] == "-" { None } else { Some(dec_hex(f[3])?) };
             let qos: u8 = f[4].parse().ok().filter(|q| *q <= 1)?;
@@ -1018,11 +1029,12 @@ fn run_family<S: Fam>(bufsize: usize, events: &[&str]) -> String {
         time,
         client,
         settings: S::default(),
+        xerr: vec![],
     };
     for ev in events {
         d.event(ev);
     }
-    let tail = format!("END state_settings={}", d.state_settings());
+    let tail = format!("END state_settings={} xerr={}", d.state_settings(), if d.xerr.is_empty() { "-".to_string() } else { d.xerr.join(";") });
     let mut w = world.borrow_mut();
     w.log.push(tail);
     w.log.join(" ")
